@@ -1140,6 +1140,217 @@ theorem frame_sees_own_shock (solve : Frame → Data → Data) (un : List Nat) (
   exact runFrames_unant_untouched solve un q f.first hu pre main hq hc (fun g hg => by have := hpre g hg; omega)
 
 
+
+/-! ## 16. statement audit: rejection branches, the recursion for every terminal column, composed corollaries, examples -/
+
+/-- rejection: a non-finite entry (a NaN read, a division by zero, an out-of-range read) makes the norm undefined — the
+solver's exit test can not be met, and conversely (the code raises on a non-finite first evaluation) -/
+theorem normInf_eq_none_iff : ∀ (v : List (Option Rat)), normInf v = none ↔ none ∈ v
+  | [] => by simp [normInf]
+  | none :: _ => by simp [normInf]
+  | some x :: rest => by
+    have ih := normInf_eq_none_iff rest
+    simp only [normInf, Option.map_eq_none_iff, ih, List.mem_cons]
+    constructor
+    · intro h; exact Or.inr h
+    · rintro (h | h)
+      · cases h
+      · exact h
+
+/-- rejection: a division by zero is not a number -/
+theorem evalWith_div_zero (rd : Nat → Int → Option Rat) (t : Int) (a b : Expr) (hb : b.evalWith rd t = some 0) :
+    (Expr.div a b).evalWith rd t = none := by
+  simp only [Expr.evalWith, hb]
+  cases a.evalWith rd t <;> simp
+
+/-- rejection: an equation that reads a missing cell has no residual -/
+theorem evalWith_var_missing (rd : Nat → Int → Option Rat) (t : Int) (q : Nat) (s : Int) (h : rd q (t + s) = none) :
+    (Expr.var q s).evalWith rd t = none := by simp [Expr.evalWith, h]
+
+/-- rejection: exactly the documented strings are methods (anything else is the code's `KeyError`) -/
+theorem resolveMethod_eq_none_iff (s : String) :
+    resolveMethod s = none ↔ s ∉ ["first_order", "period_by_period", "period", "stacked_time", "stacked"] := by
+  unfold resolveMethod
+  by_cases h1 : s = "first_order" <;> by_cases h2 : s = "period_by_period" <;> by_cases h3 : s = "period" <;>
+    by_cases h4 : s = "stacked_time" <;> by_cases h5 : s = "stacked" <;> simp [h1, h2, h3, h4, h5]
+
+/-- rejection: a model without variants simulates nothing (every requested output is `none`) -/
+theorem simulateVariants_no_model {D O} (sim : Unit → D → O) (n : Nat) (ds : List D) :
+    ∀ o ∈ simulateVariants sim n [] ds, o = none := by
+  intro o ho
+  simp only [simulateVariants, pairVariants, List.map_map, List.mem_map, List.mem_range] at ho
+  obtain ⟨k, _, rfl⟩ := ho
+  simp [exhaustThenLast]
+
+example : normInf [some 1, none, some 2] = none ∧ (Expr.div (.const 1) (.const 0)).evalWith (fun _ _ => none) 0 = none := by
+  decide +kernel
+
+/-! ### the terminal recursion for EVERY terminal column -/
+
+/-- closed form of the terminal values over Mathlib matrices: column `k` is the `k`-fold iterate of `ξ ↦ Tξ + K` from the
+last state — for every `k`, which pins `cum_K^k = K + T K + … + T^{k-1} K` (any other recursion for the constant, e.g.
+`cum_T·cum_K + K`, differs from it as soon as `k ≥ 2`) -/
+theorem terminalXi_eq_iterate {n : Type} [Fintype n] [DecidableEq n] {K : Type} [CommRing K]
+    (T : Matrix n n K) (Kc x : n → K) : ∀ k, terminalXi matOps T Kc x k = (fun ξ => T *ᵥ ξ + Kc)^[k] x
+  | 0 => terminalXi_zero T Kc x
+  | k + 1 => by
+    rw [terminalXi_succ, terminalXi_eq_iterate T Kc x k, Function.iterate_succ_apply']
+
+/-- the same for the EXECUTABLE terminator, every terminal column -/
+theorem terminalXi_qOps_eq_iterate (n : Nat) (T : QMat) (K x : QVec) (hr : T.rows = n) (hc : T.cols = n) (k : Nat) :
+    QVec.toFn (terminalXi (qOps n) T K x k) n = (fun ξ => T.toMat n n *ᵥ ξ + QVec.toFn K n)^[k] (QVec.toFn x n) := by
+  rw [terminalXi_qOps_refines n T K x hr hc k, terminalXi_eq_iterate]
+
+/-- two terminal columns, non-zero constant: `T = 1/2, K = 1, ξ = 4`: columns 1, 2, 3 hold 3, 5/2, 9/4 -/
+example : (List.range 4).map (fun k => (terminalXi (qOps 1) (QMat.ofRows [[1/2]]) #[1] #[4] k).getD 0 0) = [4, 3, 5/2, 9/4] := by
+  decide +kernel
+
+/-- `terminate_get_terminal` on a concrete array (max_lead = 2): cells `(0, 3)` and `(0, 4)` of a one-variable model whose last
+simulated column 2 holds 4 -/
+example :
+    let ts : TermSpec := ⟨QMat.ofRows [[1/2]], #[1], [(0, 0)], [(0, 0)], 2⟩
+    let d := Data.tabulate 1 5 (fun _ c => if c = 2 then some 4 else some 0)
+    (terminate ts 2 d).get 0 3 = some 3 ∧ (terminate ts 2 d).get 0 4 = some (5/2) ∧ (terminate ts 2 d).get 0 2 = some 4 := by
+  decide +kernel
+
+/-! ### composed corollaries -/
+
+/-- **Frames from data tile the span** (composition of `breakPoints_head` and `splitFrames_tile`; input-level hypotheses
+only): whatever the data, the stacked-time frames computed from its unanticipated shocks cover every base period exactly once -/
+theorem stackedFrames_of_data_tile (d : Data) (un : List Nat) (baseFirst n : Nat) :
+    (stackedFrames baseFirst (n + 1) (breakPoints d un baseFirst (n + 1))).flatMap
+        (fun f => List.range' f.first (f.last + 1 - f.first)) = List.range' baseFirst (n + 1) := by
+  obtain ⟨rest, hbp, hlen⟩ := breakPoints_head d un baseFirst n
+  rw [hbp, ← hlen]
+  exact splitFrames_tile baseFirst rest _
+
+/-- the break points of a data variant depend only on ITS unanticipated-shock rows over the base span -/
+theorem breakPoints_congr (d d' : Data) (un : List Nat) (baseFirst n : Nat)
+    (h : ∀ q ∈ un, ∀ i < n, d.get q ((baseFirst + i : Nat) : Int) = d'.get q ((baseFirst + i : Nat) : Int)) :
+    breakPoints d un baseFirst n = breakPoints d' un baseFirst n := by
+  unfold breakPoints
+  apply List.map_congr_left
+  intro i hi
+  have hi' : i < n := List.mem_range.1 hi
+  congr 1
+  rw [Bool.eq_iff_iff, List.any_eq_true, List.any_eq_true]
+  constructor
+  · rintro ⟨q, hq, hp⟩; exact ⟨q, hq, by rw [← h q hq i hi']; exact hp⟩
+  · rintro ⟨q, hq, hp⟩; exact ⟨q, hq, by rw [h q hq i hi']; exact hp⟩
+
+/-- **Frames per variant: locality.** The frames of data variant `k` are computed from data variant `k` alone: one list per
+variant, and two families of data variants that agree in variant `k` (on the unanticipated shocks over the base span) give
+variant `k` the same frames — nothing of variant 0 enters (seeded change C06-r6-3 reused variant 0's frames) -/
+theorem framesPerVariant_get (un : List Nat) (baseFirst n : Nat) (datas : List Data) (k : Nat) :
+    (framesPerVariant un baseFirst n datas)[k]? =
+      (datas[k]?).map (fun d => stackedFrames baseFirst n (breakPoints d un baseFirst n)) := by
+  simp [framesPerVariant]
+
+theorem framesPerVariant_local (un : List Nat) (baseFirst n : Nat) (datas datas' : List Data) (k : Nat) (d d' : Data)
+    (hk : datas[k]? = some d) (hk' : datas'[k]? = some d')
+    (h : ∀ q ∈ un, ∀ i < n, d.get q ((baseFirst + i : Nat) : Int) = d'.get q ((baseFirst + i : Nat) : Int)) :
+    (framesPerVariant un baseFirst n datas)[k]? = (framesPerVariant un baseFirst n datas')[k]? := by
+  rw [framesPerVariant_get, framesPerVariant_get, hk, hk']
+  simp only [Option.map_some]
+  rw [breakPoints_congr d d' un baseFirst n h]
+
+/-- two data variants with unanticipated shocks (row 1) at different dates get different frames -/
+example :
+    let d0 := Data.tabulate 2 6 (fun q c => if q = 1 ∧ c = 3 then some 1 else some 0)
+    let d1 := Data.tabulate 2 6 (fun q c => if q = 1 ∧ c = 2 then some 1 else some 0)
+    framesPerVariant [1] 1 4 [d0, d1] = [[⟨1, 2, 4⟩, ⟨3, 4, 4⟩], [⟨1, 1, 4⟩, ⟨2, 4, 4⟩]] := by decide +kernel
+
+/-! ### the initial guess writes the base span only -/
+
+theorem storeCurr_get_other (curr : List (Nat × Nat)) (first : Nat) (xs : List QVec) (d : Data) (q : Nat) (t : Int)
+    (h : ∀ c : Nat, t = (c : Int) → ¬ (first ≤ c ∧ c < first + xs.length ∧ (curr.find? (fun qi => qi.1 == q)).isSome)) :
+    (storeCurr curr first xs d).get q t = d.get q t := by
+  by_cases hin : 0 ≤ t ∧ q < d.rows ∧ t.toNat < d.cols
+  · obtain ⟨h0, hq, ht⟩ := hin
+    obtain ⟨c, rfl⟩ := Int.eq_ofNat_of_zero_le h0
+    simp only [Int.toNat_natCast] at ht
+    unfold storeCurr
+    rw [Data.get_modify _ _ _ _ hq ht]
+    have := h c rfl
+    by_cases hr : first ≤ c ∧ c < first + xs.length
+    · have hnone : curr.find? (fun qi => qi.1 == q) = none := by
+        cases hf : curr.find? (fun qi => qi.1 == q) with
+        | none => rfl
+        | some x => exact absurd ⟨hr.1, hr.2, by simp [hf]⟩ this
+      simp [hr, hnone]
+    · simp [hr]
+  · exact Data.get_modify_out d _ hin
+
+theorem fordPath_length {M V} (o : LinOps M V) (T : M) (K : V) : ∀ (gs : List V) (x0 : V), (fordPath o T K x0 gs).length = gs.length
+  | [], _ => rfl
+  | g :: gs, x0 => by simp [fordPath, fordPath_length o T K gs]
+
+/-- **Which cells an initial guess may write.** Whatever the mode, the initial guess leaves every cell outside
+(current-dated transition rows) × (base span) exactly as it came in: initial conditions, shocks, exogenous and measurement
+variables, and — for `terminal="data"` decisive — the user's TERMINAL columns beyond the base span (seeded change C06-r6-2
+let the first-order guess run into them). The `data` mode writes nothing at all. -/
+theorem initialGuess_get_other (mode : GuessMode) (s : TermSpec) (baseFirst n : Nat) (d : Data) (q : Nat) (t : Int)
+    (h : ∀ c : Nat, t = (c : Int) → ¬ (baseFirst ≤ c ∧ c < baseFirst + n ∧ (s.curr.find? (fun qi => qi.1 == q)).isSome)) :
+    (initialGuess mode s baseFirst n d).get q t = d.get q t := by
+  cases mode with
+  | data => rfl
+  | firstOrder =>
+    simp only [initialGuess, initialGuessFO]
+    cases hsf : simulateFlat s baseFirst (List.replicate n ((qOps s.xiTokens.length).zeroV)) d with
+    | some d' =>
+      simp only [simulateFlat, Option.bind_eq_bind, Option.bind_eq_some_iff] at hsf
+      obtain ⟨x0, _, hd'⟩ := hsf
+      simp only [Option.pure_def, Option.some.injEq] at hd'
+      subst hd'
+      apply storeCurr_get_other
+      intro c hc
+      rw [fordPath_length, List.length_replicate]
+      exact h c hc
+    | none =>
+      by_cases hin : 0 ≤ t ∧ q < d.rows ∧ t.toNat < d.cols
+      · obtain ⟨h0, hq, ht⟩ := hin
+        obtain ⟨c, rfl⟩ := Int.eq_ofNat_of_zero_le h0
+        simp only [Int.toNat_natCast] at ht
+        show (d.modify _).get q (c : Int) = _
+        rw [Data.get_modify _ _ _ _ hq ht]
+        rw [if_neg (h c rfl)]; rfl
+      · exact Data.get_modify_out d _ hin
+
+/-- in particular: the terminal columns are the input's, for both modes -/
+theorem initialGuess_keeps_terminal (mode : GuessMode) (s : TermSpec) (baseFirst n : Nat) (d : Data) (q c : Nat)
+    (hc : baseFirst + n ≤ c) : (initialGuess mode s baseFirst n d).get q (c : Int) = d.get q (c : Int) := by
+  apply initialGuess_get_other
+  intro c' hcc
+  have : c = c' := by exact_mod_cast hcc
+  subst this; omega
+
+/-- first-order guess of `x_t = x_{t-1}/2 + 1` from `x = 4` over two base periods; the terminal column (3) keeps the user's 7 -/
+example :
+    let ts : TermSpec := ⟨QMat.ofRows [[1/2]], #[1], [(0, 0)], [(0, 0)], 1⟩
+    let d := Data.tabulate 1 4 (fun _ c => if c = 0 then some 4 else if c = 3 then some 7 else none)
+    (List.range 4).map (fun c => (initialGuess .firstOrder ts 1 2 d).get 0 (c : Int)) = [some 4, some 3, some (5/2), some 7]
+    ∧ (List.range 4).map (fun c => (initialGuess .data ts 1 2 d).get 0 (c : Int)) = [some 4, none, none, some 7] := by
+  decide +kernel
+
+/-! ### examples for the composed theorems -/
+
+/-- `frame_end_to_end` on a model with a parameter: `x_t = ρ x_{t-1}` (ρ = row 1, in force: 1/2; the input array holds garbage
+there), `x_0 = 1`: the exit test is met at `1/2, 1/4` and the hypotheses are input-level -/
+example :
+    let s : System := ⟨[.sub (.var 0 0) (.mul (.var 1 0) (.var 0 (-1)))], [0], 1, 2, .data⟩
+    let d := Data.tabulate 2 3 (fun q c => if q = 0 ∧ c = 0 then some 1 else if q = 1 then some 99 else none)
+    normInf (s.evalFunc (some [1/2, 1/4]) (frameArray s [1] ⟨[(1, 1/2)]⟩ (1/9) d)) = some 0
+      ∧ (⟨[(1, 1/2)]⟩ : Obj).lookup 1 = some (1/2) := by decide +kernel
+
+/-- `runFrames_owner` on two frames with a marking solver: column 2 (owned by the first frame) holds the first frame's mark
+after the second frame has run over columns 3…4 -/
+example :
+    let solve : Frame → Data → Data := fun f d => d.modify (fun _ c => if f.first ≤ c ∧ c ≤ f.simLast then some (some (f.first : Rat)) else none)
+    let d := Data.tabulate 1 6 (fun _ _ => some 0)
+    (List.range 6).map (fun c => (runFrames solve [] [⟨1, 2, 4⟩, ⟨3, 4, 4⟩] d).get 0 (c : Int))
+      = [some 0, some 1, some 1, some 3, some 3, some 0] := by decide +kernel
+
+
 end Glue
 
 end IrisVerif.C06
